@@ -1910,7 +1910,9 @@ fn table_numsets(tier: &str) -> Vec<(bool, i64, Vec<i64>, String)> {
 // ------------------------------------------------------------------------------------------------
 
 pub fn run(args: &Args) -> i32 {
-  std::panic::set_hook(Box::new(|_| {}));
+  if std::env::var("C14_VERBOSE").is_err() {
+    std::panic::set_hook(Box::new(|_| {}));
+  }
   let mut out = CaseOut::new(args, header_term(), "check run obs_eqb ok", "case", "obs");
   out.per_shard = 90;
   let mut idx = 0usize;
@@ -1966,7 +1968,7 @@ pub fn run(args: &Args) -> i32 {
           let base = if fnk { g_u32(&mut r) as i64 } else { g_sn(&mut r) };
           let n = r.below(12);
           let spread = *r.pick(&[4u64, 40, 255, 256, 257, 300, 1000]);
-          let lo = if r.chance(1, 4) { base - 3 } else { base };
+          let lo = if r.chance(1, 4) { base.wrapping_sub(3) } else { base };
           let mut s = BTreeSet::new();
           for _ in 0..n {
             let x = lo.wrapping_add(r.below(spread) as i64);
